@@ -149,6 +149,23 @@ def _replay_state(st):
             fails.append(("product." + p, "ProductIsHamilton",
                           {"A": st["A"], "B": st["B"], "ea": ea, "eb": eb,
                            "expected": st["out"]["C"], "got": got}))
+    # aliased operands: the SAME object as both factors (in-place shortcuts must not read what they overwrite)
+    if FA.shape[0] == FA.shape[1]:
+        want = omul(FA, FA)
+        u_ = lib().utils
+        Aq_ = q_from_float(FA.copy())
+        Sp_ = _sp(FA.copy())
+        comps_ = [np.ascontiguousarray(FA[..., c]).copy() for c in range(4)]
+        for name, got in (("dd.alias", lambda: q_to_float(u_.quat_matmat(Aq_, Aq_))), ("ss.alias", lambda: _sp_dense(u_.quat_matmat(Sp_, Sp_))),
+                          ("comp.alias", lambda: np.stack([np.asarray(x) for x in u_.timesQsparse(*comps_, *comps_)], axis=-1))):
+            n += 1
+            try:
+                G = got()
+                okc = G.shape == want.shape and np.array_equal(G, want)
+            except Exception as e:  # noqa
+                okc, G = False, None
+            if not okc or not np.array_equal(q_to_float(Aq_), FA) or not np.array_equal(_sp_dense(Sp_), FA) or not all(np.array_equal(comps_[c], FA[..., c]) for c in range(4)):
+                fails.append(("product." + name, "ProductIsHamilton", {"A": st["A"], "ea": ea, "aliased": True}))
     expAH = np.array(st["out"]["AH"], dtype=np.float64) * 2.0 ** ea
     for fmt in ("dense", "sparse"):
         H = herm(fmt, FA)
